@@ -112,13 +112,15 @@ struct RTree {
   RTree* sub(const std::string& k) { for (auto& e : subs) if (e.first == k) return e.second.get(); return nullptr; }
 };
 static std::vector<std::string> dotted(const std::string& key) { return split(key, '.'); }
-enum RStat { RS_OK, RS_CONFLICT };
-// find: 0 = absent, 1 = present; conflict when a component is a value and is used as group (or vice versa)
+enum RStat { RS_OK, RS_CONFLICT, RS_LEAF };
+// find: out = the value, nullptr when the key is absent.  RS_CONFLICT when a name on the way is value and group at once
+// (nothing is claimed then); RS_LEAF when the dotted key runs through a name that is a value only: such a key does not
+// exist (hasKey/hasSub "otherwise false", get(key, default) "if not found default is returned"), reading it is an error
 static RStat refFind(RTree& t, const std::vector<std::string>& path, std::string*& out) {
   RTree* cur = &t;
   out = nullptr;
   for (size_t i = 0; i + 1 < path.size(); ++i) {
-    if (cur->val(path[i])) return RS_CONFLICT;
+    if (cur->val(path[i])) return cur->sub(path[i]) ? RS_CONFLICT : RS_LEAF;
     cur = cur->sub(path[i]);
     if (!cur) return RS_OK;
   }
@@ -1077,14 +1079,15 @@ static Result execTq(const std::vector<std::string>& w, const std::string& tail)
     if (t[0] == "hk") {
       ans = guarded([&] { return std::string(cpt.hasKey(key) ? "true" : "false"); });
       if (st == RS_OK) want = cur ? "true" : "false";
+      if (st == RS_LEAF) { want = "false"; stat("tq_through_leaf"); }
     } else if (t[0] == "hs") {
       ans = guarded([&] { return std::string(cpt.hasSub(key) ? "true" : "false"); });
       if (claim) {
         RTree* c = &ref;
         bool okp = true, found = true;
         for (size_t i = 0; i < path.size() && found; ++i) {
-          if (c->val(path[i])) { okp = false; break; }
-          c = c->sub(path[i]);
+          if (c->val(path[i]) && c->sub(path[i])) { okp = false; break; }   // value and group at once: no claim
+          c = c->sub(path[i]);       // a name that is a value only (or unknown) is not a group
           if (!c) found = false;
         }
         if (okp) want = found ? "true" : "false";
@@ -1092,6 +1095,7 @@ static Result execTq(const std::vector<std::string>& w, const std::string& tail)
     } else if (t[0] == "gs") {
       ans = guarded([&] { return hx(cpt[key]); });
       if (st == RS_OK) want = cur ? hx(*cur) : "ERR:Range";
+      if (st == RS_LEAF) want = "ERR:Range";
     } else if (t[0] == "sk" || t[0] == "skf") {
       bool f = t[0] == "skf";
       ans = guarded([&] { return dumpTree(cpt.sub(key, f)); });
@@ -1101,13 +1105,14 @@ static Result execTq(const std::vector<std::string>& w, const std::string& tail)
       std::string d = unhex(t[2]);
       ans = guarded([&] { return hx(cpt.get(key, d)); });
       if (st == RS_OK) want = cur ? hx(*cur) : hx(d);
+      if (st == RS_LEAF) want = hx(d);        // the key does not exist: the default, not an exception
       // the overload taking the default as const char* and the template with T = std::string (trimmed value)
       if (!hasNul(d)) {
         std::string a2 = guarded([&] { return hx(cpt.get(key, d.c_str())); });
         if (a2 != ans && bad.empty()) bad = "gd " + key + ": get(key, const char*) = " + a2.substr(0, 100) + " but get(key, std::string) = " + ans.substr(0, 100);
       }
       std::string a3 = guarded([&] { return hx(cpt.get<std::string>(key, d)); });
-      if (st == RS_OK) {
+      if (st == RS_OK || st == RS_LEAF) {
         std::string w3 = cur ? refScalar('s', *cur, true, 0) : hx(d);
         if (a3 != w3 && bad.empty()) bad = "gd " + key + ": get<std::string>(key, default) = " + a3.substr(0, 100) + " want " + w3.substr(0, 100);
       }
@@ -1116,6 +1121,7 @@ static Result execTq(const std::vector<std::string>& w, const std::string& tail)
       int d = std::stoi(t[2]);
       ans = guarded([&] { return std::to_string(cpt.get<int>(key, d)); });
       if (st == RS_OK) want = cur ? refInt(stripC(*cur), true, 32) : std::to_string(d);
+      if (st == RS_LEAF) want = std::to_string(d);
     } else throw BadOp();
     answers.push_back(ans);
     if (want != "?" && want != ans && bad.empty()) bad = t[0] + " " + key + ": got " + ans.substr(0, 100) + " want " + want.substr(0, 100);
